@@ -4,6 +4,7 @@ import Driver.SchemaJson
 import GqlModel.Validate.Local
 import GqlModel.Validate.Graph
 import GqlModel.Validate.Overlap
+import GqlModel.Validate.TypeInfo
 /-! Driver for C02 (validation rules).
 
 `{"schema":<gq.SchemaDesc>, "doc":<astjson Document>}` →
@@ -12,7 +13,8 @@ import GqlModel.Validate.Overlap
                            "S": [[[start,end]…]…],       -- S's errors, each = the locations of its nodes
                            "M": [[[start,end]…]…],       -- the rule as coded
                            "Mviolated": bool} …}}`
-`{"introspection":true}` → the model's table of introspection types (cross-checked against the real type map). -/
+`{"introspection":true}` → the model's table of introspection types (cross-checked against the real type map).
+`{"typeinfo":true,"schema":…,"doc":…}` → `{"recs":[…]}` the top-down TypeInfo of every observed node (unit c14ti). -/
 open Lean GqlModel GqlModel.Validate
 
 namespace Driver.C02
@@ -46,12 +48,23 @@ def encIntrospection : Json :=
     ("directives", Json.arr (Schema.specifiedDirectives.map (fun d =>
       Json.mkObj [("name", d.name), ("locations", Json.arr (d.locations.map Json.str).toArray), ("args", encArgs d.args)])).toArray)]
 
+/-- op `typeinfo` (harness c14ti): one row per observed node,
+`[kind, start, end, Type(), ParentType(), InputType(), FieldDef().Name, Directive().Name, Argument().Name]` -/
+def encTIRec (r : TIRec) : Json :=
+  let o (x : Option String) : Json := match x with | some v => Json.str v | none => Json.str "nil"
+  Json.arr #[Json.str r.kind, Json.num r.loc.start, Json.num r.loc.stop,
+    Json.str (renderOptType r.st.c.ty), o r.st.c.parent, Json.str (renderOptType r.st.input),
+    o (r.st.c.fieldDef.map (·.name)), o (r.st.directive.map (·.name)), o r.st.argument]
+
 def handle (j : Json) : Except String Json := do
   match j.getObjVal? "introspection" with
   | .ok (.bool true) => return encIntrospection
   | _ => pure ()
   let s ← Driver.SchemaJson.decSchema (← j.getObjVal? "schema")
   let d ← Driver.AstJson.decDocument (← j.getObjVal? "doc")
+  match j.getObjVal? "typeinfo" with
+  | .ok (.bool true) => return Json.mkObj [("recs", Json.arr ((tiRecords s d).map encTIRec).toArray)]
+  | _ => pure ()
   let rules := registry.map (fun (nm, m, sp) =>
     let es := sp s d
     let em := m s d
